@@ -249,3 +249,54 @@ Proof.
   split; [reflexivity|]. split; [exact N|]. split; [intros u Hu; apply I; apply in_or_app; now left|].
   split; [vm_compute; reflexivity|]. split; [exact S|]. split; [exact B|]. split; [exact R | exact X].
 Qed.
+
+(* ================================================================= liveness across the selection step *)
+(* What the selection must hand over for build () not to refuse: the inputs after selection have to exceed the outputs
+   by the largest fee the estimator returns for the transaction WITH the selected inputs (and with the change output)
+   plus the largest minimum ADA of the change — acf_live carried over to build_tail. *)
+Theorem live_after_selection minada pack est st merge explicit pool sel (outs : list output) fee0 maxfee minc :
+  ada_only (map u_val (inputs_after_selection explicit pool sel)) -> ada_only (map snd outs) -> b_mint st = [] ->
+  (forall o f, est o f <= maxfee) -> (forall c, minada (mkValue c []) <= minc) -> 0 < minc ->
+  coin (provided st (map u_val (inputs_after_selection explicit pool sel))) >= sum_coin (map snd outs) + maxfee + minc ->
+  exists r, build_tail minada pack est st merge (inputs_after_selection explicit pool sel) outs fee0 = inr r.
+Proof.
+  intros Ai Ao Hm He Hmin Hpos Hc. unfold build_tail.
+  destruct (acf_live minada pack est st merge _ outs fee0 maxfee minc Ai Ao Hm He Hmin Hpos Hc) as [o' [f' E]].
+  rewrite E. eauto.
+Qed.
+
+(* The request build () hands to the selectors contains the fee estimated BEFORE the selected inputs were added.  A
+   selector that honours that request to the letter — covering outputs + that fee and leaving its change the minimum ADA,
+   which is all UTxOSelector.select (respect_min_utxo) promises and exactly what the largest-first strategy returns — does
+   NOT guarantee a transaction: the fee of the transaction with the input just added (and with the change output) is
+   larger, and the change falls below its minimum.  Witness (the real run is corpus/C06.json `live-lf-base`): a wallet of
+   11.234567 + 10 + 9.999 ADA at one base address, one output of 10.089136 ADA; fee before selection 159033, largest-first
+   answers with the 11.234567 ADA UTxO (change 986398 >= 978370); the fee becomes 165281, then 168141 with the change
+   output; change 977290 < 978370: InsufficientUTxOBalanceException although 20 ADA are left in the wallet. *)
+Definition lv_addr : bytes :=
+  hx "003333333333333333333333333333333333333333333333333333333344444444444444444444444444444444444444444444444444444444".
+Definition lv_tx : bytes := hx "eaeaeaeaeaeaeaeaeaeaeaeaeaeaeaeaeaeaeaeaeaeaeaeaeaeaeaeaeaeaeaea".
+Definition lv_pool : list utxo :=
+  [mkU lv_tx 10 lv_addr (mkValue 11234567 []); mkU lv_tx 8 lv_addr (mkValue 10000000 []); mkU lv_tx 34 lv_addr (mkValue 9999000 [])].
+Definition lv_outs : list output := [(true, mkValue 10089136 [])].
+Definition lv_st : bstate := mkB [] [] [] false [] 0 2000000 500000000.
+Definition lv_est (o : list output) (f : Z) : Z := if Nat.eqb (length o) 1 then 165281 else 168141.
+Definition lv_fee0 : Z := 159033.
+Definition lv_sel : list (bytes * N) := [(lv_tx, 10%N)].
+
+Theorem live_selection_request_refuted :
+  ada_only (map u_val lv_pool) /\ ada_only (map snd lv_outs) /\ b_mint lv_st = []
+  (* the answer is within the selector contract and honours the request: outputs + fee estimated before selection,
+     and its change has the minimum ADA *)
+  /\ selection_ok lv_pool lv_sel = true
+  /\ (let got := sum_coin (map u_val (pick_by_in lv_pool lv_sel)) in
+      let chg := got - sum_coin (map snd lv_outs) - lv_fee0 in
+      0 <= chg /\ minada_c 4310 lv_addr (mkValue chg []) <= chg)
+  (* the wallet holds about 20 ADA more than the request, many times the fee and the minimum change *)
+  /\ sum_coin (map u_val lv_pool) >= sum_coin (map snd lv_outs) + 20 * 1000000
+  (* build () refuses *)
+  /\ build_tail (minada_c 4310 lv_addr) (pack_c 4310 lv_addr 5000) lv_est lv_st false
+                (inputs_after_selection [] lv_pool lv_sel) lv_outs lv_fee0 = inl ErrInsufficient.
+Proof.
+  repeat split; try (repeat constructor; reflexivity); try (vm_compute; reflexivity); vm_compute; intros H; discriminate H.
+Qed.
